@@ -479,6 +479,13 @@ func (pi *pkgInstr) isAtomicCall(c *ast.CallExpr) bool {
 // field read after the unlock, a lock taken in read mode for a write, a
 // missing lock) that the scheduler itself cannot interleave.
 
+// ExtraGuarded: structs without a lock of their own whose fields are shared
+// between threads under somebody else's lock.
+var ExtraGuarded = map[string]bool{
+	"engine.monitorBase":    true, // under its root monitor's lock
+	"pool.ThreadPoolWorker": true,
+}
+
 func isSyncType(t types.Type) bool {
 	if p, ok := t.(*types.Pointer); ok {
 		t = p.Elem()
@@ -532,6 +539,9 @@ func (pi *pkgInstr) guardedField(se *ast.SelectorExpr) bool {
 		return false
 	}
 	n, ok := lockCarrying(sel.Recv())
+	if n != nil && n.Obj().Pkg() != nil && ExtraGuarded[n.Obj().Pkg().Name()+"."+n.Obj().Name()] {
+		ok = true
+	}
 	if !ok || n.Obj().Pkg() == nil || !strings.HasPrefix(n.Obj().Pkg().Path(), "github.com/krotik/ecal") {
 		return false
 	}
